@@ -198,28 +198,43 @@ impl Prop for Mock {
     fn check(&self, c: &MockCase, ctx: &mut Ctx) -> CheckResult {
         let kind = self.kind;
         for (vi, cfg) in variants(kind, &c.cfg).into_iter().enumerate() {
-            for j in 0..c.schedules.max(1) {
-                let seed = h64(&(c.seed, vi as u64, j as u64));
+            // one shuttle runner per variant: `schedules` executions under one seeded scheduler
+            let seed = h64(&(c.seed, vi as u64));
+            let n = if matches!(c.sched, Sched::RoundRobin | Sched::Dfs(_)) { 1 } else { c.schedules.max(1) as usize };
+            let done: Arc<Mutex<Vec<Obs>>> = Arc::new(Mutex::new(Vec::new()));
+            let fail: Arc<Mutex<Option<(usize, Failure, String)>>> = Arc::new(Mutex::new(None));
+            let (d2, f2, cfg2) = (done.clone(), fail.clone(), cfg.clone());
+            let r = run_under(c.sched, seed, n, move || {
                 let obs: SharedObs = Arc::new(Mutex::new(Obs::default()));
-                let (o2, cfg2) = (obs.clone(), cfg.clone());
-                if ctx.counting {
-                    ctx.evaluations += 1;
+                execute_mock(&cfg2, &obs);
+                let o = std::mem::take(&mut *obs.lock().unwrap());
+                let verdict = oracle(kind, &cfg2, &o);
+                let idx = {
+                    let mut d = d2.lock().unwrap();
+                    d.push(o);
+                    d.len() - 1
+                };
+                if let Err(f) = verdict {
+                    let ev = format!("{:?}", d2.lock().unwrap()[idx].events);
+                    let sig = f.sig.clone();
+                    *f2.lock().unwrap() = Some((idx, f, ev));
+                    panic!("oracle violated: {}", sig);
                 }
-                let r = run_under(c.sched, seed, move || {
-                    // a fresh observation per execution (DFS runs the body many times)
-                    *o2.lock().unwrap() = Obs::default();
-                    execute_mock(&cfg2, &o2);
-                });
-                let describe = |f: Failure| Failure::new(f.sig, format!("variant {} = {:?}, schedule {} ({:?}, seed {}): {}", vi, cfg, j, c.sched, seed, f.msg));
-                if let Err(f) = r {
-                    return Err(describe(f));
-                }
-                let o = obs.lock().unwrap();
-                if let Err(f) = oracle(kind, &cfg, &o) {
-                    return Err(Failure::new(f.sig, format!("variant {} = {:?}, schedule {} ({:?}, seed {}): {}\n  events: {:?}", vi, cfg, j, c.sched, seed, f.msg, o.events)));
-                }
-                if classify(kind, &cfg, &o, ctx) {
-                    ctx.nontrivial(&(&cfg, c.sched, seed), &serde_json::json!({"config": cfg, "scheduler": c.sched, "schedule_seed": seed, "events": format!("{:?}", o.events)}));
+            });
+            let executed = done.lock().unwrap().len();
+            if ctx.counting {
+                ctx.evaluations += executed.max(1) as u64;
+            }
+            if let Some((idx, f, ev)) = fail.lock().unwrap().take() {
+                return Err(Failure::new(f.sig, format!("variant {} = {:?}, execution {} of scheduler {:?} seeded {}: {}\n  events: {}", vi, cfg, idx, c.sched, seed, f.msg, ev)));
+            }
+            if let Err(f) = r {
+                return Err(Failure::new(f.sig, format!("variant {} = {:?}, execution {} of scheduler {:?} seeded {}: {}", vi, cfg, executed, c.sched, seed, f.msg)));
+            }
+            let obs_list = std::mem::take(&mut *done.lock().unwrap());
+            for (j, o) in obs_list.iter().enumerate() {
+                if classify(kind, &cfg, o, ctx) {
+                    ctx.nontrivial(&(&cfg, c.sched, seed, j), &serde_json::json!({"config": cfg, "scheduler": c.sched, "scheduler_seed": seed, "execution": j, "events": format!("{:?}", o.events)}));
                 }
             }
         }
@@ -299,36 +314,50 @@ impl Prop for Real {
     }
 
     fn check(&self, c: &RealCase, ctx: &mut Ctx) -> CheckResult {
-        for j in 0..c.schedules.max(1) {
-            let seed = h64(&(c.seed, j as u64));
+        let seed = h64(&(c.seed, 0u64));
+        let n = if matches!(c.sched, Sched::RoundRobin | Sched::Dfs(_)) { 1 } else { c.schedules.max(1) as usize };
+        let done: Arc<Mutex<Vec<RealObs>>> = Arc::new(Mutex::new(Vec::new()));
+        let fail: Arc<Mutex<Option<(usize, Failure, String)>>> = Arc::new(Mutex::new(None));
+        let (d2, f2, cfg2) = (done.clone(), fail.clone(), c.cfg.clone());
+        let kind = self.kind;
+        let r = run_under(c.sched, seed, n, move || {
             let obs: SharedReal = Arc::new(Mutex::new(RealObs::default()));
-            let (o2, cfg2) = (obs.clone(), c.cfg.clone());
-            if ctx.counting {
-                ctx.evaluations += 1;
-            }
-            let r = run_under(c.sched, seed, move || {
-                *o2.lock().unwrap() = RealObs::default();
-                execute_real(&cfg2, &o2);
-            });
-            if let Err(f) = r {
-                return Err(Failure::new(f.sig, format!("schedule {} ({:?}, seed {}): {}", j, c.sched, seed, f.msg)));
-            }
-            let o = obs.lock().unwrap();
-            if let Err(f) = check_real(&c.cfg, &o) {
-                return Err(Failure::new(f.sig, format!("schedule {} ({:?}, seed {}): {}\n  observed: {:?}", j, c.sched, seed, f.msg, *o)));
-            }
-            // C16: record-set buffers do not grow per batch
-            if self.kind == Kind::C16 {
-                let (seq, _) = crate::real::sequential(&c.cfg);
-                let _ = seq;
+            execute_real(&cfg2, &obs);
+            let o = std::mem::take(&mut *obs.lock().unwrap());
+            let mut verdict = check_real(&cfg2, &o);
+            if verdict.is_ok() && kind == Kind::C16 {
+                // record-set buffers do not grow per batch
                 let max_cap = o.set_buf_caps.iter().copied().max().unwrap_or(0);
-                let doc_len = crate::real::document(&c.cfg).len();
-                // the reader's buffer never needs to exceed 2 x (largest record + 1), nor the initial capacity
-                let bound = 4 * c.cfg.cap.max(2 * (c.cfg.sizes.iter().copied().max().unwrap_or(0) as usize * 2 + 16)) + 16;
+                let doc_len = crate::real::document(&cfg2).len();
+                let bound = 4 * cfg2.cap.max(2 * (cfg2.sizes.iter().copied().max().unwrap_or(0) as usize * 2 + 16)) + 16;
                 if max_cap > bound.max(doc_len + 16) {
-                    return Err(Failure::new("real/record-set-buffer-grows", format!("a record set buffer reached capacity {} (reader capacity {}, document {} bytes)", max_cap, c.cfg.cap, doc_len)));
+                    verdict = Err(Failure::new("real/record-set-buffer-grows", format!("a record set buffer reached capacity {} (reader capacity {}, document {} bytes)", max_cap, cfg2.cap, doc_len)));
                 }
             }
+            let idx = {
+                let mut d = d2.lock().unwrap();
+                d.push(o);
+                d.len() - 1
+            };
+            if let Err(f) = verdict {
+                let ev = format!("{:?}", d2.lock().unwrap()[idx]);
+                let sig = f.sig.clone();
+                *f2.lock().unwrap() = Some((idx, f, ev));
+                panic!("oracle violated: {}", sig);
+            }
+        });
+        let executed = done.lock().unwrap().len();
+        if ctx.counting {
+            ctx.evaluations += executed.max(1) as u64;
+        }
+        if let Some((idx, f, ev)) = fail.lock().unwrap().take() {
+            return Err(Failure::new(f.sig, format!("execution {} of scheduler {:?} seeded {}: {}\n  observed: {}", idx, c.sched, seed, f.msg, ev)));
+        }
+        if let Err(f) = r {
+            return Err(Failure::new(f.sig, format!("execution {} of scheduler {:?} seeded {}: {}", executed, c.sched, seed, f.msg)));
+        }
+        let obs_list = std::mem::take(&mut *done.lock().unwrap());
+        for (j, o) in obs_list.iter().enumerate() {
             ctx.class(match c.cfg.api {
                 0 => "api: parallel_fasta/parallel_fastq",
                 1 => "api: parallel_fasta_init/parallel_fastq_init",
@@ -345,7 +374,7 @@ impl Prop for Real {
                 ctx.class("call returned an error");
             }
             if c.cfg.n_records >= 2 || n_sets >= 2 {
-                ctx.nontrivial(&(&c.cfg, c.sched, seed), &serde_json::json!({"config": c.cfg, "scheduler": c.sched, "schedule_seed": seed, "result": format!("{:?}", o.result), "records_seen": o.seen.len()}));
+                ctx.nontrivial(&(&c.cfg, c.sched, seed, j), &serde_json::json!({"config": c.cfg, "scheduler": c.sched, "scheduler_seed": seed, "execution": j, "result": format!("{:?}", o.result), "records_seen": o.seen.len()}));
             }
         }
         Ok(())
@@ -384,7 +413,7 @@ fn dfs_tiny(run: &mut Run, kind: Kind, max_iter: u32) {
         for cfg in cfgs {
             let fail: Arc<Mutex<Option<Failure>>> = Arc::new(Mutex::new(None));
             let (f2, cfg2) = (fail.clone(), cfg.clone());
-            let r = run_under(Sched::Dfs(max_iter), 0, move || {
+            let r = run_under(Sched::Dfs(max_iter), 0, 1, move || {
                 let obs: SharedObs = Arc::new(Mutex::new(Obs::default()));
                 execute_mock(&cfg2, &obs);
                 let o = obs.lock().unwrap();
@@ -436,16 +465,20 @@ fn rule(kind: Kind) -> String {
 }
 
 fn run_kind(kind: Kind, tier: Tier) -> i32 {
-    let mut run = Run::new(kind.id(), tier, "exploration");
+    let level = match kind {
+        Kind::C08 | Kind::C15 => "fault_enumeration",
+        _ => "exploration",
+    };
+    let mut run = Run::new(kind.id(), tier, level);
     let (max_sets, mock_cases, mock_sched, real_cases, real_sched) = match (kind, tier) {
-        (Kind::C07, Tier::Quick) => (8, 3_000, 12, 2_500, 6),
-        (Kind::C07, Tier::Thorough) => (10, 60_000, 40, 60_000, 20),
-        (Kind::C08, Tier::Quick) => (5, 400, 3, 2_500, 6),
-        (Kind::C08, Tier::Thorough) => (6, 12_000, 8, 60_000, 20),
-        (Kind::C15, Tier::Quick) => (5, 500, 3, 2_500, 6),
-        (Kind::C15, Tier::Thorough) => (6, 15_000, 8, 60_000, 20),
-        (Kind::C16, Tier::Quick) => (60, 1_200, 4, 1_500, 4),
-        (Kind::C16, Tier::Thorough) => (300, 20_000, 8, 30_000, 10),
+        (Kind::C07, Tier::Quick) => (8, 8_000, 20, 6_000, 10),
+        (Kind::C07, Tier::Thorough) => (10, 300_000, 40, 300_000, 20),
+        (Kind::C08, Tier::Quick) => (5, 1_200, 4, 6_000, 10),
+        (Kind::C08, Tier::Thorough) => (6, 60_000, 8, 300_000, 20),
+        (Kind::C15, Tier::Quick) => (5, 1_500, 4, 6_000, 10),
+        (Kind::C15, Tier::Thorough) => (6, 60_000, 8, 300_000, 20),
+        (Kind::C16, Tier::Quick) => (60, 3_000, 6, 4_000, 8),
+        (Kind::C16, Tier::Thorough) => (300, 60_000, 8, 150_000, 10),
     };
     let m = Mock { kind, max_sets, schedules: mock_sched };
     run.replays("mock-reader", &m);
